@@ -22,7 +22,8 @@ SF_CART_INFO_16K * cart_var_alloc (void) { memset (&rc, 0, sizeof (rc)) ; return
 
 #define SAME64(f)	(rc.f [g] == wc.f [g])
 void h_cart_pair (void)
-{	int g = g_idx ;
+{	GHOST_HAVOC () ;
+	int g = g_idx ;
 	__CPROVER_havoc_object (&wc) ;		/* every field of the caller's cart info unconstrained */
 	wc.tag_text_size = TAG ;
 	W.header.ptr = hw ; W.header.len = HDR ; W.rwf_endian = SF_ENDIAN_LITTLE ; W.cart_16k = &wc ;
